@@ -30,13 +30,13 @@ def _validate_traces(ctx, recorded, tag):
                     detail="TLC cannot follow the recorded execution even on observables: %s" % ([(e["fields"], e["input"], e["axis"], e["index"]) for e in t["events"]],))
 
 
-def _replay_cfg(ctx, cfg, fmt="text", limit=None, record=0):
+def _replay_cfg(ctx, cfg, fmt="text", limit=None, record=0, perturb=None):
     res = tlc.run("MC_DataImpl", cfg, tag=ctx.pid + "_" + cfg, timeout_s=1500)
     ctx.add_tlc(cfg, res, {})
     emitted = res.emitted
     if limit and len(emitted) > limit:
         emitted = random.Random(ctx.seed).sample(emitted, limit)
-    jobs = [(ds, seqs, fmt, False) for ds, seqs in c18replay.group(emitted)]
+    jobs = [(ds, seqs, fmt, False, perturb) for ds, seqs in c18replay.group(emitted)]
     if record:
         # a sample of the behaviours is executed once more with the hooks on, and the recorded traces go to TLC
         rng = random.Random(ctx.seed + 1)
@@ -122,6 +122,8 @@ def run(ctx):
         _replay_cfg(ctx, "MC_DataImpl_C18EmitMix", limit=4000, record=500)
         _replay_cfg(ctx, "MC_DataImpl_C18EmitSingle", limit=3000, record=300)      # every input dimension aligned with the verified ones
         _replay_cfg(ctx, "MC_DataImpl_C18EmitExtra", limit=3000)      # other fields as cache keys (two quantile levels that agree to two decimals)
+        # ensemble members as fields; before every request a quantile that has to be derived from the members is asked for as well
+        _replay_cfg(ctx, "MC_DataImpl_C18EmitEns", limit=1500, perturb="quantile-from-ensemble")
         _random_sequences(ctx, "C18Mix", 32, 10, 8)
     else:
         res = tlc.run("MC_DataImpl", "MC_DataImpl_C18QuickFixed", tag=ctx.pid + "_model", timeout_s=900, require_emit=False)
@@ -136,6 +138,7 @@ def run(ctx):
         _replay_cfg(ctx, "MC_DataImpl_C18EmitMix", record=4000)
         _replay_cfg(ctx, "MC_DataImpl_C18EmitSingle", record=2000)
         _replay_cfg(ctx, "MC_DataImpl_C18EmitExtra")
+        _replay_cfg(ctx, "MC_DataImpl_C18EmitEns", perturb="quantile-from-ensemble")
         _random_sequences(ctx, "C18Mix", 32, 60, 12)
         _random_sequences(ctx, "C18Quick", 16, 60, 12)
         ctx.exhaustive = True
